@@ -689,7 +689,10 @@ func (s *Server) complete(ctx context.Context, req *CompleteRequest) (*CompleteR
 		return nil, jsonrpc2.ErrMethodNotFound
 	}
 	res, err := s.opts.CompletionHandler(ctx, req)
-	if err == nil && res != nil && res.Completion.Values == nil {
+	if err == nil && res == nil {
+		res = &CompleteResult{} // a handler may return (nil, nil): an empty result, never JSON null
+	}
+	if err == nil && res.Completion.Values == nil {
 		res2 := *res
 		res2.Completion.Values = []string{} // avoid JSON null
 		res = &res2
@@ -880,7 +883,10 @@ func (s *Server) getPrompt(ctx context.Context, req *GetPromptRequest) (*GetProm
 		}
 	}
 	res, err := prompt.handler(ctx, req)
-	if err == nil && res != nil {
+	if err == nil && res == nil {
+		res = &GetPromptResult{} // a handler may return (nil, nil): an empty result, never JSON null
+	}
+	if err == nil {
 		if err := handleMultiRoundTripResult(req.Session, s.opts.Logger, res); err != nil {
 			return nil, err
 		}
@@ -987,7 +993,10 @@ func (s *Server) callTool(ctx context.Context, req *CallToolRequest) (*CallToolR
 		}
 	}
 	res, err := st.handler(ctx, req)
-	if err == nil && res != nil {
+	if err == nil && res == nil {
+		res = &CallToolResult{} // a handler may return (nil, nil): an empty result, never JSON null
+	}
+	if err == nil {
 		if err := handleMultiRoundTripResult(req.Session, s.opts.Logger, res); err != nil {
 			return nil, err
 		}
